@@ -383,6 +383,27 @@ pub fn build_file(path: &Path, dirs: &[PathBuf]) -> Outcome {
     }
 }
 
+/// The program `main` (which holds a line `.include "part.inc"`) with `part` as that file, built from a
+/// scratch directory of this thread; `leading` is written in front of both files (blank lines, a BOM-less
+/// comment - whatever must not matter).
+pub fn build_main_with_part(main: &str, part: &str) -> Outcome {
+    build_main_with_part_bytes(main.as_bytes(), part.as_bytes())
+}
+
+/// the same for files that need not be valid UTF-8
+pub fn build_main_with_part_bytes(main: &[u8], part: &[u8]) -> Outcome {
+    use std::sync::atomic::{AtomicU64, Ordering};
+    static N: AtomicU64 = AtomicU64::new(0);
+    thread_local! { static DIR: PathBuf = verif_root().join("build").join(format!("scratch-split-{}-{}", std::process::id(), N.fetch_add(1, Ordering::Relaxed))); }
+    let dir = DIR.with(|d| d.clone());
+    if std::fs::create_dir_all(&dir).is_err() || std::fs::write(dir.join("main.asm"), main).is_err() || std::fs::write(dir.join("part.inc"), part).is_err() {
+        return Outcome::Err("HARNESS: cannot write the scratch files".into());
+    }
+    let out = build_file(&dir.join("main.asm"), &[]);
+    let _ = std::fs::remove_dir_all(&dir);
+    out
+}
+
 // ------------------------------------------------------------------------------------------
 // Tier / configuration
 
